@@ -1,6 +1,6 @@
 """C12 — oneshot channels deliver a single value: to one receiver, or (broadcast) a clone to all."""
 from rl import (method_role, entry_methods, loc_endswith, path_cond, trace_summary, where, const_of, fmt_val, fmt_loc, fields_of)
-from common import (scan_field_writes, w4_pending_stores_waker, w4_helper, contains, poll_variant)
+from common import (scan_field_writes, w4_pending_stores_waker, w4_helper, contains, poll_variant, effective)
 from engine import NONE
 from lib import CheckerError
 
@@ -27,6 +27,12 @@ def run(C, R):
         E = C.engine(cfg)
         CG = C.cg(cfg)
         R.configs.append(cfg)
+        from rl import unknown_transitions as _unk
+        for _st in list(STATES):
+            _u = _unk(C.facts(cfg), C.cg(cfg), _st, ('send', 'close', 'try_receive', 'remove_waiter', 'receive', 'drop', 'poll', 'cancel'))
+            if _u:
+                raise CheckerError('cannot judge: %s act(s) as a transition of %s (mutates it directly / composes state '
+                                   'calls) and this property has no rule for an operation of that name' % (', '.join(_u), _st))
         from common import futures_start_initial as _fsi
         R.floor('C12.R0f future-construction-paths[%s]' % cfg, _fsi(C, R, cfg, ['channel::oneshot::ChannelState', 'channel::oneshot_broadcast::ChannelState'], 'C12.R0f'), 2)
         from common import constructor_state
@@ -35,6 +41,8 @@ def run(C, R):
         from common import wrapper_discipline
         R.floor('C12.W wrapper-paths[%s]' % cfg, wrapper_discipline(C, R, cfg, list(STATES), 'C12.W'), 2)
         from common import slot_discipline
+        from rl import state_layer
+        layer = state_layer(F, CG, list(STATES))
         for st, mode in STATES.items():
             F.adt(st)
             mod = st.rsplit('::', 1)[0] + '::'
@@ -46,7 +54,8 @@ def run(C, R):
             nw = 0
             for fn, s in scan_field_writes(F, 'value', mod):
                 nw += 1
-                if fn.get('impl_adt') == st and method_role(F, fn)[0] == 'send':
+                if (fn.get('impl_adt') == st and method_role(F, fn)[0] == 'send') or layer.get(fn['path']) == st:
+                    # (which TRANSITION may assign the slot is R6; a private helper of the state layer may hold the store)
                     R.ok('C12.R1', '%s|slot-write' % fn['path'])
                 else:
                     R.fail('C12.R1', [fn['path'], 'slot-write-outside-send'],
@@ -61,7 +70,7 @@ def run(C, R):
                 ff = const_of(E, path.facts, ('init', (('P', 'self'), FLAG)))
                 stores = [e for e in path.events if e['k'] == 'write' and self_value_loc(e['loc'])]
                 setf = [e for e in path.events if e['k'] == 'write' and loc_endswith(e['loc'], FLAG)
-                        and e['val'] == ('const', 1)]
+                        and e['val'] == ('const', 1) and effective(E, path, e)]
                 okret = path.ret[0] == 'agg' and path.ret[2] == 'Ok'
                 if okret:
                     drained = [e for e in path.events if e['k'] == 'qop' and e['op'] in ('reverse_drain', 'drain')]
